@@ -16,6 +16,14 @@ C20.strip  a value found under a key with more DNSSEC flags reaches the caller
            only through remove_dnssec / update_header, parameterised by the
            *requested* key's AD flag.
 C20.ins    nothing with zero validity is inserted.
+C20.key    each flag parameter of Key::new receives the value read from the flag
+           of the same name (header.ad / cd / rd, OPT dnssec_ok), and Key::new
+           stores each in the field of that name.
+C20.cls    classify_no_error calls a response an answer only for a record of
+           the *queried* type and class (a CNAME chain ending in nothing is a
+           negative answer).
+C20.total  no unwrap/expect on the next item of a section iterator of an
+           upstream message (the question of a response may be missing).
 """
 import re
 
@@ -40,6 +48,9 @@ def run(ctx):
     rule_cap(ctx, F)
     rule_strip(ctx, F)
     rule_ins(ctx, F)
+    rule_total(ctx, F)
+    rule_key(ctx, F)
+    rule_cls(ctx, F)
 
 
 def rule_exp(ctx, F):
@@ -55,18 +66,35 @@ def rule_exp(ctx, F):
     fresh = False
     el = lambda x: x[0] == "call" and (x[1] or "").endswith("Instant::elapsed") and deep_strip(x[3][0]) == ("field", ("arg", 1), "created_at")
     vf = lambda x: x == ("field", ("arg", 1), "valid_for")
+    strict = False
     for (x, rel, y) in relations(b, bb, F):
         x, y = deep_strip(x), deep_strip(y)
         if el(x) and vf(y) and rel in ("<=", "<"):
             fresh = True
+            strict = strict or rel == "<"
     ctx.ob(R, b, "served only while elapsed <= valid_for", fresh,
            "Value::get_response produces a response on a path where created_at.elapsed() > valid_for was not "
            "excluded: stale entries would be served", b.where(bb))
+    ctx.ob(R, b, "not served at the instant of expiry (elapsed < valid_for)", fresh and strict,
+           "Value::get_response still serves an entry when created_at.elapsed() == valid_for, i.e. when its smallest "
+           "TTL has just elapsed: the response goes out with a TTL of 0", b.where(bb))
     amt = deep_strip(b.term_of_operand(t["args"][2]))
     ok = any(s[0] == "call" and (s[1] or "").endswith("Duration::as_secs") for s in walk(amt)) and \
         any(s[0] == "call" and (s[1] or "").endswith("Instant::elapsed") for s in walk(amt))
     ctx.ob(R, b, "TTLs reduced by the elapsed seconds", ok,
            "the decrement amount is not the whole seconds elapsed since created_at (%s)" % show(amt)[:100], b.where(bb))
+    # whatever is served -- a message or a remembered failure -- is served on the fresh side only
+    k = 0
+    for bi in sorted(b.reachable_blocks()):
+        if b.blocks[bi].get("c"):
+            continue
+        for st in b.blocks[bi]["s"]:
+            if st[0] == "=" and st[2][0] == "agg" and st[2][1][0] == "adt" and st[2][1][1] == "core::option::Option" and st[2][1][2] == "Some":
+                k += 1
+                ok = any(el(deep_strip(x)) and vf(deep_strip(y)) and rel in ("<", "<=") for (x, rel, y) in relations(b, bi, F))
+                ctx.ob(R, b, "Some(..)#%d is produced on the not-expired side" % k, ok,
+                       "Value::get_response returns Some(..) on a path that does not pass the age test: that entry (a remembered "
+                       "failure, for instance) never expires", b.where(bi))
     nones = [r for r in return_assignments(b) if r[2] == "None"]
     ctx.ob(R, b, "expired entries yield None", len(nones) == 1, "expected one `return None` for expired entries")
 
@@ -218,20 +246,28 @@ def rule_cap(ctx, F):
                     start = True
     ctx.ob(R, b, "starts from config.max_validity", start, "validity() must start from max_validity")
     tf = False
+    tf_capped = False
     zero_tc = False
     for rb, si, kind, term in return_assignments(b):
         if kind != "Ok" or term is None:
             continue
         v = deep_strip(term[2][0]) if term[0] == "agg" else None
         if v == ("field", ("arg", 2), "transport_failure_duration"):
-            fs = outcome_facts(b, rb, F)
-            tf = any(o in ("failure", ("variant", "Err")) for s, o in fs) or True
+            tf = True
+            tf_capped = False
+        elif v is not None and v[0] == "call" and (v[1] or "").endswith("cmp::min") and "transport_failure_duration" in show(v):
+            tf = True
+            tf_capped = "max_validity" in show(v)
         if v is not None and v[0] == "k" and (v[3] or "").endswith("Duration::ZERO"):
             fs = bool_facts(b, rb, F)
             if any(tt[0] == "call" and (tt[1] or "").endswith("Header::tc") and vv is True for tt, vv in fs) and \
                     any(tt == ("field", ("arg", 2), "cache_truncated") and vv is False for tt, vv in fs):
                 zero_tc = True
     ctx.ob(R, b, "transport failures use transport_failure_duration", tf, "an Err response must be cached for transport_failure_duration")
+    ctx.ob(R, b, "a cached transport failure is bounded by max_validity as well", tf and tf_capped,
+           "validity() answers config.transport_failure_duration for a failed request without folding it with "
+           "config.max_validity, the bound every other arm starts from: with max_validity = 60 s and "
+           "transport_failure_duration = 300 s a failure is still served from the cache after 100 s")
     ctx.ob(R, b, "truncated responses are not cached unless configured", zero_tc,
            "a TC=1 response must get zero validity when cache_truncated is off")
     weird = False
@@ -323,6 +359,24 @@ def rule_strip(ctx, F):
         sad = [t for _, t in rd.calls() if (t["fn"] or "").endswith("Header::set_ad")]
         ctx.ob(R, rd, "filters DNSSEC types in all sections and clears AD on request", len(isd) >= 3 and len(sad) >= 1,
                "remove_dnssec: is_dnssec used %d time(s), set_ad %d time(s)" % (len(isd), len(sad)))
+        # a referral cached for a DO=1 query carries the DS RRset in its authority section; a server would not
+        # have sent it for DO=0 (RFC 3225 / RFC 4035 3.1.4), so the authority filter has to drop DS as well
+        pushes = [(bb, t) for bb, t in rd.calls() if re.search(r"AuthorityBuilder::<.*>::push(::<.*>)?$", t["fn"] or "")]
+        if ctx.anchor(R, "remove_dnssec: authority section push", len(pushes) == 1, rd.where()):
+            pb = pushes[0][0]
+            no_ds = False
+            for tm, v, _e in facts_at(rd, pb, F):
+                ts = strip(tm)
+                if ts[0] == "call" and re.search(r"PartialEq::(eq|ne)$", ts[1] or "") and len(ts[3]) == 2 and \
+                        any(const_value(deep_strip(a)) == 43 for a in ts[3]) and "rtype(" in show(ts):
+                    if v is (ts[1].endswith("::ne")):
+                        no_ds = True
+                if ts[0] in ("Eq", "Ne", "bin") and "rtype(" in show(ts) and re.search(r"\b43\b", show(ts)):
+                    if (v is False and "Eq" in show(ts)[:3]) or (v is True and "Ne" in show(ts)[:3]):
+                        no_ds = True
+            ctx.ob(R, rd, "a DS record in the authority section is not handed to a DO=0 query", no_ds,
+                   "remove_dnssec strips RRSIG, NSEC and NSEC3 but copies a DS record in the authority section: a referral "
+                   "cached for a DO=1 query is served to a DO=0 query with the DS RRset still in it", rd.where(pb))
 
 
 def rule_ins(ctx, F):
@@ -340,3 +394,105 @@ def rule_ins(ctx, F):
                 ok = True
     ctx.ob(R, b, "zero-validity values are never inserted", ok and len(ins) == 1,
            "cache_insert must skip values whose valid_for is zero (uncacheable responses)")
+
+
+def rule_total(ctx, F):
+    R = "C20.total"
+    ctx.floor(R, 1)
+    n = 0
+    for p, b in sorted(F.bodies.items()):
+        if not p.startswith(("net::client::cache::", "<net::client::cache::")) or "::test" in p:
+            continue
+        for bb, t in b.calls():
+            if not re.search(r"core::option::Option::<.*>::(unwrap|expect)$", t["fn"] or ""):
+                continue
+            recv = deep_strip(b.term_of_operand(t["args"][0]))
+            if recv[0] == "call" and re.search(r"Iterator::next$|::next$", recv[1] or "") and not re.search(r"next_section$", recv[1] or ""):
+                n += 1
+                ctx.ob(R, b, "the next item of a message section is not assumed to exist", False,
+                       "%s unwraps `%s`: an upstream response whose section is empty (a NOERROR reply without question) "
+                       "panics the cache" % (p.split("::")[-1], show(recv)[:80]), b.where(bb))
+    cb = F.one_body(r"^net::client::cache::classify_no_error$")
+    if ctx.anchor(R, "classify_no_error", cb):
+        nx = [bb for bb, t in cb.calls() if re.search(r"QuestionSection.*::next$|Iterator::next$", (t.get("res") or t["fn"] or ""))]
+        ctx.ob(R, cb, "classify_no_error reads the question section", bool(nx),
+               "classify_no_error no longer takes the question from the message's question section", nontrivial=False)
+
+
+# dnssec_ok is read as `msg.opt().is_some_and(|opt| opt.dnssec_ok())`: the getter sits in a closure, the OPT lookup is
+# what the argument's own term shows
+FLAG_GETTER = {"ad": r"Header::ad$", "cd": r"Header::cd$", "rd": r"Header::rd$", "dnssec_ok": r"::dnssec_ok$|Message::<\w+>::opt$|<Octs>::opt$"}
+
+
+def rule_key(ctx, F):
+    R = "C20.key"
+    ctx.floor(R, 6)
+    kb = F.one_body(r"^net::client::cache::Key::new$")
+    if not ctx.anchor(R, "Key::new", kb):
+        return
+    # parameter names of Key::new, by position
+    pnames = {}
+    for nme, pl in kb.vars:
+        if len(pl) == 1 and 1 <= pl[0] <= kb.nargs:
+            pnames[pl[0]] = nme
+    flags = {i: n for i, n in pnames.items() if n in FLAG_GETTER}
+    if not ctx.anchor(R, "flag parameters of Key::new", len(flags) == 4, kb.where()):
+        return
+    # inside: each parameter is stored in the field of its name (ad / dnssec_ok go into AdDo::new in that order)
+    for bi in kb.reachable_blocks():
+        for st in kb.blocks[bi]["s"]:
+            if st[0] == "=" and st[2][0] == "agg" and st[2][1][0] == "adt" and st[2][1][1].endswith("cache::Key"):
+                names = F.adts.get("net::client::cache::Key", {}).get("variants", [{}])[0].get("fields") or []
+                for fi, op in enumerate(st[2][2]):
+                    tm = deep_strip(kb.term_of_operand(op))
+                    fname = names[fi]["name"] if fi < len(names) and isinstance(names[fi], dict) else (names[fi] if fi < len(names) else None)
+                    if fname in ("cd", "rd"):
+                        ctx.ob(R, kb, "Key.%s is the %s parameter" % (fname, fname), tm[0] == "arg" and pnames.get(tm[1]) == fname,
+                               "Key::new stores %s in the field `%s`" % (show(tm), fname), kb.where(bi))
+    for bb, tt in kb.calls_matching(r"cache::AdDo::new$"):
+        a = [deep_strip(kb.term_of_operand(x)) for x in tt["args"]]
+        ok = len(a) == 2 and a[0][0] == "arg" and pnames.get(a[0][1]) == "ad" and a[1][0] == "arg" and pnames.get(a[1][1]) == "dnssec_ok"
+        ctx.ob(R, kb, "AdDo::new(ad, dnssec_ok)", ok, "Key::new passes %s to AdDo::new(ad, dnssec_ok)" % [show(x) for x in a], kb.where(bb))
+    # callers: the value handed to each flag parameter is read from the flag of that name
+    n = 0
+    for b, bb, tt in F.callers_of(r"^net::client::cache::Key::new$"):
+        if "::test" in b.path:
+            continue
+        for i, nme in sorted(flags.items()):
+            if i - 1 >= len(tt["args"]):
+                continue
+            tm = deep_strip(b.term_of_operand(tt["args"][i - 1]))
+            getters = [s[1] for s in walk(tm) if s[0] == "call" and s[1] and any(re.search(rx, s[1]) for rx in FLAG_GETTER.values())]
+            if not getters:
+                continue        # a constant or a field of another key: not a message flag
+            n += 1
+            ctx.ob(R, b, "Key::new(.. %s ..) receives the %s flag" % (nme, nme),
+                   all(re.search(FLAG_GETTER[nme], g) for g in getters),
+                   "%s passes the value of %s as the `%s` parameter of Key::new: two flags trade places in the cache key, "
+                   "and the compatibility rules of the one are applied to the other" % (b.path.split("::{closure")[0].split("::")[-1], [g.split("::")[-1] for g in getters], nme),
+                   b.where(bb))
+    ctx.ob(R, kb, "call sites that build a key from message flags", n >= 4, "found %d flag arguments read from a message" % n, nontrivial=False)
+
+
+def rule_cls(ctx, F):
+    R = "C20.cls"
+    ctx.floor(R, 1)
+    b = F.one_body(r"^net::client::cache::classify_no_error$")
+    if not ctx.anchor(R, "classify_no_error", b):
+        return
+    rets = [r for r in return_assignments(b)]
+    ans = []
+    for bi in b.reachable_blocks():
+        for st in b.blocks[bi]["s"]:
+            if st[0] == "=" and st[2][0] == "agg" and st[2][1][0] == "adt" and st[2][1][1].endswith("cache::NoErrorType") and "Answer" in str(st[2][1]):
+                ans.append(bi)
+    if not ctx.anchor(R, "NoErrorType::Answer in classify_no_error", len(ans) >= 1, b.where()):
+        return
+    for bi in ans:
+        fs = [(show(tm), v) for tm, v, _e in facts_at(b, bi, F)]
+        ty = any(v is True and re.search(r"(eq|Eq)\(", s) and "rtype(" in s and "qtype(" in s for s, v in fs)
+        cl = any(v is True and re.search(r"(eq|Eq)\(", s) and "class(" in s and "qclass(" in s for s, v in fs)
+        ctx.ob(R, b, "Answer only for a record of the queried type and class", ty and cl,
+               "classify_no_error calls a NOERROR response an answer on a path where the record's type was not found equal to "
+               "the queried type (and its class to the queried class): a NODATA reached through a CNAME counts as a positive "
+               "answer and escapes max_nodata_validity", b.where(bi))
